@@ -111,6 +111,17 @@ fn write(f: &mut Full, o: &Value) -> (Res, Value, Value) {
             let r = f.w.create_vault(&f.hub.vault_factory.clone(), &f.usdc.clone(), vf, "newvault");
             match r { Ok((v, _)) => { let c = vault_cfg(f, &v); (Res::Ok(Default::default()), json!({"kind": "vault", "fee": c}), fee_args("f")) } Err(e) => (Res::Rejected(e), none(), fee_args("f")) }
         }
+        "vault.factory_create_tf" => {
+            let tf = A::Native("factory/creator/utf".to_string());
+            let r = f.w.create_vault(&f.hub.vault_factory.clone(), &tf, vf, "newvault_tf");
+            match r { Ok((v, _)) => { let c = vault_cfg(f, &v); (Res::Ok(Default::default()), json!({"kind": "vault", "fee": c}), fee_args("f")) } Err(e) => (Res::Rejected(e), none(), fee_args("f")) }
+        }
+        "vault.instantiate_tf" => {
+            let tf = A::Native("factory/creator/utf".to_string());
+            let r = cw_multi_test::Executor::instantiate_contract(&mut f.w.app, f.w.codes.vault, owner.clone(), &white_whale_std::vault_network::vault::InstantiateMsg {
+                owner: owner.to_string(), asset_info: tf.info(), token_id: f.w.codes.token, vault_fees: vf, fee_collector_addr: f.hub.collector.to_string(), token_factory_lp: false }, &[], "rawvault_tf", None);
+            match r { Ok(a) => { f.w.register("rawvault_tf", &a); let c = vault_cfg(f, &a); (Res::Ok(Default::default()), json!({"kind": "vault", "fee": c}), fee_args("f")) } Err(e) => (Res::Rejected(e.to_string()), none(), fee_args("f")) }
+        }
         "vault.instantiate" => {
             let r = cw_multi_test::Executor::instantiate_contract(&mut f.w.app, f.w.codes.vault, owner.clone(), &white_whale_std::vault_network::vault::InstantiateMsg {
                 owner: owner.to_string(), asset_info: f.usdc.info(), token_id: f.w.codes.token, vault_fees: vf, fee_collector_addr: f.hub.collector.to_string(), token_factory_lp: false }, &[], "rawvault", None);
